@@ -125,6 +125,17 @@ CHECKS = {
         "assumptions": ["sk.RecStream call log", "rapid v1.3.0; go1.26.8 testing/synctest"],
         "jobs": [{"pkg": "c09own", "kinds": ["own-enum", "own-case", "own-enum-bg", "own-case-bg"], "scale_thorough": 10, "shards_thorough": 16, "replay_reps": 20}],
     },
+    "C20": {
+        "level": "exploration",
+        "level_text": ("Generated (d, context kind, deadline, cancel time) for SleepContext and generated (d, jitter, read/sleep/Reset/Stop timeline) for JitterTicker, executed on the fake clock of testing/synctest, "
+                       "so elapsed times and tick spacings are exact: nil only after exactly d, DeadlineTooSoonError iff the deadline is closer than d, the context's error at the instant it ends; ticks never closer than "
+                       "d-jitter, constructor/Reset panic exactly outside the documented domain, nothing delivered after Stop"),
+        "level_note": "Trusts testing/synctest's fake clock (go1.26.8) and the arithmetic in c20time; ties (remaining == d, already-done context with a near deadline) accept both outcomes; only the lower spacing bound is asserted.",
+        "technique": "property-based testing (rapid) on a fake clock (testing/synctest) with exact time arithmetic as oracle",
+        "rule": ("kinds 'sleep' and 'ticker'. non-trivial: sleep = a deadline strictly inside (0,d), a mid-sleep cancel, or deadline+cancel; ticker = in-domain with jitter in {0, d-1} or a Reset/Stop in the timeline; distinct = distinct plan JSON"),
+        "assumptions": ["testing/synctest fake clock", "rapid v1.3.0; go1.26.8"],
+        "jobs": [{"pkg": "c20time", "kinds": ["sleep", "ticker"], "scale_thorough": 10, "shards_thorough": 16}],
+    },
     "C04": {
         "level": "exploration",
         "level_text": ("Model-based property testing: thousands of generated operation histories (macro-ops reach wrapped, full, "
